@@ -15,8 +15,9 @@ from contracts.common import FnObligation
 from vf import pyvc
 from vf.pyvc import Executor, Rec, SArr, Key, Builtin, prove, zint, zreal
 
-SRC = ["/repo/jinns/data/_DataGenerators.py", "/repo/jinns/solver/_rar.py", "/repo/jinns/data/_Batchs.py"]
-LOSS_SRC = ["/repo/jinns/loss/_LossODE.py", "/repo/jinns/loss/_LossPDE.py"]        # class declarations only (which attributes exist)
+from vf.paths import R, REPO as _REPO
+SRC = [R("/repo/jinns/data/_DataGenerators.py"), R("/repo/jinns/solver/_rar.py"), R("/repo/jinns/data/_Batchs.py")]
+LOSS_SRC = [R("/repo/jinns/loss/_LossODE.py"), R("/repo/jinns/loss/_LossPDE.py")]        # class declarations only (which attributes exist)
 DG, RAR = "jinns.data._DataGenerators:", "jinns.solver._rar:"
 META = dict(
     trusted_base=[
@@ -846,7 +847,7 @@ def _safe_native(f):
     except Exception as e:
         import traceback
         tb = traceback.extract_tb(e.__traceback__)
-        if any(fr.filename.startswith("/repo/") for fr in tb):
+        if any(fr.filename.startswith(_REPO + "/") for fr in tb):
             return [f"the real refinement step raises {type(e).__name__}: {str(e)[:200]}"]
         return None
 
